@@ -233,32 +233,6 @@ impl<'a> Ctx<'a> {
     }
 }
 
-/// Rewrite some integers of the tree as bignums (tag 2 / tag 3 around the big-endian magnitude).
-fn bignumify(rng: &mut Rng, it: &mut Item, depth: usize) {
-    if depth > 64 {
-        return;
-    }
-    match &mut it.kind {
-        Kind::Array(a) => a.iter_mut().for_each(|x| bignumify(rng, x, depth + 1)),
-        Kind::Map(m) => m.iter_mut().for_each(|(k, v)| {
-            bignumify(rng, k, depth + 1);
-            bignumify(rng, v, depth + 1);
-        }),
-        Kind::Tag(_, b) => bignumify(rng, b, depth + 1),
-        Kind::UInt(v) if rng.chance(1, 2) => {
-            let bytes = v.to_be_bytes();
-            let skip = bytes.iter().take_while(|b| **b == 0).count().min(7);
-            *it = Item::tag(2, Item::bytes(&bytes[skip..]));
-        }
-        Kind::NInt(v) if rng.chance(1, 2) => {
-            let bytes = v.to_be_bytes();
-            let skip = bytes.iter().take_while(|b| **b == 0).count().min(7);
-            *it = Item::tag(3, Item::bytes(&bytes[skip..]));
-        }
-        _ => {}
-    }
-}
-
 /// Every point in 0..len when len <= limit; otherwise both ends, 256 evenly spaced points and the
 /// neighbourhood of 2^8, 2^16 (places where length heads change width).
 fn sample_points(len: usize, limit: usize) -> Vec<usize> {
@@ -403,7 +377,7 @@ impl Engine for C13 {
                 // a third of these also carry some integers as bignums (tag 2 / 3 around a byte
                 // string), which the CBOR layer folds back into plain integers
                 if rng.chance(1, 3) {
-                    bignumify(&mut rng, &mut item, 0);
+                    refcbor::bignumify(&mut rng, &mut item, 0);
                 }
                 let mut out = Vec::new();
                 let widen = rng.range(0, 6) as u32;
